@@ -75,7 +75,7 @@ def check_sources(rep, prog):
                     d = dotted(t) or ''
                     if d in ('os.urandom', 'urandom') or d.endswith('.gen_key') or d.endswith('.gen_iv') or d.endswith('.generate'):
                         rep.violation('C13.1', m.relpath, ast.unparse(n), 'an entropy source is rebound', where='%s:%d' % (m.relpath, n.lineno))
-            if isinstance(n, ast.Call) and (dotted(n.func) or '').endswith('urandom'):
+            if isinstance(n, ast.Call) and (dotted(n.func) or '').split('.')[-1] == 'urandom':
                 n_urandom += 1
     for fn in prog.all_functions():
         for d in fn.node.decorator_list:
@@ -84,23 +84,42 @@ def check_sources(rep, prog):
                 rep.violation('C13.1', fn.qualname, '@%s' % dn, 'a memoising decorator is used in the package (a cached operation would reuse randomness)',
                               where=fn.where)
         for dflt in list(fn.node.args.defaults) + [k for k in fn.node.args.kw_defaults if k is not None]:
-            t = ast.unparse(dflt)
-            if 'urandom' in t or 'gen_key' in t or 'gen_iv' in t or '.generate(' in t:
-                rep.violation('C13.1', fn.qualname, 'default %s' % t, 'an entropy call in a default argument is evaluated once per process',
-                              where=fn.where)
+            for c in entropy_call_nodes(dflt):
+                rep.violation('C13.1', fn.qualname, 'default %s' % ast.unparse(dflt), 'an entropy call in a default argument is evaluated once per process',
+                              where=fn.where, found=ast.unparse(c))
     rep.check(n_urandom >= 4, 'C13.1', 'package', 'os.urandom call sites: %d' % n_urandom,
               'expected the four os.urandom sites (gen_iv, gen_key, two salts)', found=n_urandom)
-    # class / module level storage of entropy results
+    # class / module level storage of entropy results (an entropy CALL evaluated when the module / class body runs)
     for m in prog.modules.values():
         for name, v in m.assigns.items():
-            t = ast.unparse(v)
-            if 'urandom' in t or '.generate(' in t or 'gen_key(' in t or 'gen_iv(' in t:
-                rep.violation('C13.1', m.relpath, '%s = %s' % (name, t), 'entropy drawn once at import time', where=m.relpath)
+            for c in entropy_call_nodes(v):
+                rep.violation('C13.1', m.relpath, '%s = %s' % (name, ast.unparse(v)), 'entropy drawn once at import time', where=m.relpath,
+                              found=ast.unparse(c))
         for c in m.classes.values():
             for name, v in c.attrs.items():
-                t = ast.unparse(v)
-                if 'urandom' in t or '.generate(' in t or 'gen_key(' in t or 'gen_iv(' in t:
-                    rep.violation('C13.1', c.name, '%s = %s' % (name, t), 'entropy drawn once per class', where=c.where)
+                for x in entropy_call_nodes(v):
+                    rep.violation('C13.1', c.name, '%s = %s' % (name, ast.unparse(v)), 'entropy drawn once per class', where=c.where,
+                                  found=ast.unparse(x))
+
+
+ENTROPY_FUNCS = ('urandom', 'gen_key', 'gen_iv', 'generate', 'generate_private_key', 'token_bytes', 'getrandbits')
+
+
+def entropy_call_nodes(node):
+    """Calls of an entropy source evaluated when `node` is evaluated (a lambda body is not: it draws on each call)."""
+    out = []
+    todo = [node]
+    while todo:
+        n = todo.pop()
+        if isinstance(n, ast.Lambda):
+            continue
+        if isinstance(n, ast.Call):
+            f = n.func
+            name = f.attr if isinstance(f, ast.Attribute) else (f.id if isinstance(f, ast.Name) else None)
+            if name in ENTROPY_FUNCS:
+                out.append(n)
+        todo.extend(ast.iter_child_nodes(n))
+    return out
 
 
 # ------------------------------------------------------------------------------------------------ session key
@@ -171,7 +190,7 @@ def check_seipd_prefix(rep, prog):
     for s in run_roles(prog, fi, ('self', 'key', 'alg', 'data')):
         if s.raised:
             continue
-        enc = [c for c in s.calls if c[0] == '_encrypt']
+        enc = taint.calls_named(s, '_encrypt')
         if len(enc) != 1:
             rep.violation('C13.2', W, '%d _encrypt calls' % len(enc), 'expected one encryption', where=fi.where)
             continue
@@ -199,7 +218,7 @@ def check_keyblob(rep, prog):
                   found=iv)
         rep.check(salt == ['os.urandom(8)'] and len(taint.draws(s, 'urandom')) == 1, 'C13.2', 'PrivKey.encrypt_keyblob', 'salt = %s' % salt,
                   'key protection must draw a fresh 8-octet salt', where=fi.where, expected='self.s2k.salt = os.urandom(8)', found=salt)
-        enc = [c for c in s.calls if c[0] == '_encrypt']
+        enc = taint.calls_named(s, '_encrypt')
         ok = len(enc) == 1 and len(enc[0][1]) == 4 and not enc[0][2] and enc[0][1][3] == 'enc_alg.gen_iv()' and enc[0][1][2] == 'enc_alg'
         rep.check(ok, 'C13.2', 'PrivKey.encrypt_keyblob', '_encrypt(%s)' % (enc[0][1][1:] if enc else None),
                   'the secret material must be encrypted under the IV that is stored with the key', where=fi.where,
@@ -251,14 +270,15 @@ def check_ecdh(rep, prog):
 
 # ------------------------------------------------------------------------------------------------ C13.3
 def check_confinement(rep, prog):
+    K = 'sessionkey'        # the role symbol of the secret in every operation (whatever the parameter is called there)
     targets = [   # module, class, method, roles, *args roles, role of the session key
-        ('pgpy.pgp', 'PGPMessage', 'encrypt', ('self', 'passphrase', 'sessionkey'), None, 'sessionkey'),
-        ('pgpy.pgp', 'PGPKey', 'encrypt', ('self', 'message', 'sessionkey'), None, 'sessionkey'),
-        ('pgpy.packet.packets', 'PKESessionKeyV3', 'encrypt_sk', ('self', 'pk', 'symalg', 'symkey'), None, 'symkey'),
-        ('pgpy.packet.packets', 'SKESessionKeyV4', 'encrypt_sk', ('self', 'passphrase', 'sk'), None, 'sk'),
-        ('pgpy.packet.packets', 'IntegrityProtectedSKEDataV1', 'encrypt', ('self', 'key', 'alg', 'data'), None, 'key'),
-        ('pgpy.packet.fields', 'ECDHCipherText', 'encrypt', ('cls', 'pk'), ['mvalue'], 'mvalue'),
-        ('pgpy.packet.fields', 'RSACipherText', 'encrypt', ('cls', 'encfn'), ['mvalue'], 'mvalue'),
+        ('pgpy.pgp', 'PGPMessage', 'encrypt', ('self', 'passphrase', K), None, K),
+        ('pgpy.pgp', 'PGPKey', 'encrypt', ('self', 'message', K), None, K),
+        ('pgpy.packet.packets', 'PKESessionKeyV3', 'encrypt_sk', ('self', 'pk', 'symalg', K), None, K),
+        ('pgpy.packet.packets', 'SKESessionKeyV4', 'encrypt_sk', ('self', 'passphrase', K), None, K),
+        ('pgpy.packet.packets', 'IntegrityProtectedSKEDataV1', 'encrypt', ('self', K, 'alg', 'data'), None, K),
+        ('pgpy.packet.fields', 'ECDHCipherText', 'encrypt', ('cls', 'pk'), [K], K),
+        ('pgpy.packet.fields', 'RSACipherText', 'encrypt', ('cls', 'encfn'), [K], K),
     ]
     for mod, cls, meth, roles, va, name in targets:
         fi = prog.method(mod, cls, meth)
